@@ -7,7 +7,7 @@
     over them are re-checked against the source as it is now. *)
 From Coq Require Import String List Bool Arith.
 From LCGen Require Import RuleTable IssueSites.
-From LC Require Import LoggerDefs LoggerProofs LoggerRefineProofs.
+From LC Require Import LoggerDefs LoggerProofs LoggerRefineProofs LoggerRound5Proofs.
 Import ListNotations.
 
 (* ---------------------------------------------------------------------------------------------- *)
@@ -356,3 +356,31 @@ Example C15_refinement_nonvacuous :
             get_error s 1 = ANull.
 Proof. exact LoggerRefineProofs.refinement_nonvacuous. Qed.
 Print Assumptions C15_refinement_nonvacuous.
+
+(* ---------------------------------------------------------------------------------------------- *)
+(** * J. Proof depth round 5 (LoggerRound5Proofs.v) *)
+
+(** A coherent logger is a function of its issue list: two states satisfying the invariant with the same issues
+    are equal, index vectors included — so the abstraction is injective on coherent states. *)
+Theorem C15_abstraction_injective : forall s s', Inv s -> Inv s' -> issues s = issues s' -> s = s'.
+Proof. exact LoggerRound5Proofs.abstraction_injective. Qed.
+Print Assumptions C15_abstraction_injective.
+
+Theorem C15_refines_functional : forall s s' l l', Refines s l -> Refines s' l' -> (s = s' <-> l = l').
+Proof. exact LoggerRound5Proofs.refines_functional. Qed.
+Print Assumptions C15_refines_functional.
+
+(** Well-formedness of a concatenated history (one service instance re-used over several inputs) is exactly
+    well-formedness of the first part and of the second part from the specification state the first part reaches. *)
+Theorem C15_spec_wf_app : forall a b l,
+  spec_wf (a ++ b) l <-> spec_wf a l /\ match run_spec a l with Some l' => spec_wf b l' | None => False end.
+Proof. exact LoggerRound5Proofs.spec_wf_app. Qed.
+Print Assumptions C15_spec_wf_app.
+
+(** The forward simulation composes over re-use: the run of [a ++ b] is the run of [b] from where [a] ended,
+    on both sides, with related end states. *)
+Theorem C15_refinement_app : forall (a b : list op) (s : logger) (l : spec), Refines s l -> spec_wf a l ->
+  exists s1 l1, run_ops a s = Ok s1 /\ run_spec a l = Some l1 /\ Refines s1 l1 /\ (spec_wf b l1 ->
+     exists s2 l2, run_ops (a ++ b) s = Ok s2 /\ run_spec (a ++ b) l = Some l2 /\ Refines s2 l2 /\ run_ops b s1 = Ok s2 /\ run_spec b l1 = Some l2).
+Proof. exact LoggerRound5Proofs.refinement_app. Qed.
+Print Assumptions C15_refinement_app.
